@@ -334,6 +334,13 @@ func (vc *VC) dispatchCall(st *State, call *ast.CallExpr, recv *Term, args []Ter
 }
 
 func (vc *VC) dispatchCall2(st *State, call *ast.CallExpr, recv *Term, args []Term, info *types.Info) []Term {
+	if len(vc.frames) == 1 {
+		// the outermost call of the function under verification being dispatched (calls made while
+		// a callee is inlined belong to it)
+		savedCall := vc.curCall
+		vc.curCall = call
+		defer func() { vc.curCall = savedCall }()
+	}
 	fn := staticCallee(info, call)
 	if fn == nil {
 		// call through a function value
@@ -451,6 +458,8 @@ func (vc *VC) externalValueOnly(fn *types.Func, call *ast.CallExpr) bool {
 
 // havocLibraryFields: only fields / package variables of non-rqlite types change.
 func (vc *VC) havocLibraryFields(st *State) {
+	old := vc.snapshotFields(st)
+	defer vc.keepPrivateStructs(st, old)
 	for _, n := range vc.sortedUniverse() {
 		if (strings.HasPrefix(n, "F$") || strings.HasPrefix(n, "G$")) && !isRqlitePkg(heapPkg[n]) && !heapStructVal[n] {
 			st.heap[n] = vc.fresh(n, vc.universe[n])
@@ -763,8 +772,11 @@ func (vc *VC) contractCall(st *State, call *ast.CallExpr, c *FuncContract, fn *t
 			vc.havocPattern(st, a)
 		}
 		// the callee's frame obligation does not cover fields of library objects (verify.go), so
-		// the caller does not keep them across the call either
-		vc.havocLibraryFields(st)
+		// the caller does not keep them across the call either. (The assigns clause of a trusted
+		// library specification is taken as complete: it is not checked against a body anyway.)
+		if hasBody || isRqlitePkg(pkgPath) {
+			vc.havocLibraryFields(st)
+		}
 	case hasBody || isRqlitePkg(pkgPath):
 		vc.havocHeap(st, c.Key)
 	default:
